@@ -31,6 +31,7 @@ type Finding struct {
 	Site     string         `json:"site"`
 	What     string         `json:"what"`
 	Witness  map[string]any `json:"witness"`
+	CaseLine string         `json:"case_line,omitempty"`
 }
 
 // Key identifies a finding for the known-findings file: property, site and the
@@ -52,6 +53,9 @@ type Ctx struct {
 	rule     string
 	oracleN  int // number of oracle evaluations
 	scale    int // 1 quick, larger for thorough
+	// faultIsFinding: a panic of the implementation on any generated case is a
+	// violation of the property itself (C16)
+	faultIsFinding bool
 }
 
 func (c *Ctx) add(op string, args ...string) int {
@@ -153,6 +157,14 @@ func runProperty(prop string, seed uint64, tier, outdir string) error {
 		res := safeExec(cs.Op, cs.Args)
 		if lastPanic != "" {
 			rep.ImplFaults++
+			if ctx.faultIsFinding && len(ctx.findings) < 50 {
+				line := cs.Line()
+				if len(line) > 200000 {
+					line = line[:200000]
+				}
+				ctx.findings = append(ctx.findings, Finding{Property: prop, Site: cs.Op, What: "panic: " + firstRepoFrame(lastPanic),
+					Witness: map[string]any{"op": cs.Op, "args_md5": digestList([][]byte{[]byte(strings.Join(cs.Args, "\t"))})}, CaseLine: line})
+			}
 			if len(rep.FaultStacks) < 5 {
 				rep.FaultStacks = append(rep.FaultStacks, cs.ID+": "+firstRepoFrame(lastPanic))
 			}
